@@ -7,9 +7,11 @@ import (
 	"context"
 	"errors"
 	"fmt"
+	"runtime"
 	"sort"
 	"strings"
 	"sync"
+	"sync/atomic"
 	"testing"
 	"testing/synctest"
 	"time"
@@ -34,8 +36,10 @@ const (
 
 // Round is one acquire attempt of a worker; when it succeeds the worker's next command is Unlock.
 type Round struct {
-	Kind int  `json:"kind"`
-	Pre  bool `json:"pre,omitempty"` // the context is cancelled before the call (TryLock / LockWithCtx)
+	Kind    int  `json:"kind"`
+	Pre     bool `json:"pre,omitempty"`      // the context is cancelled before the call (TryLock / LockWithCtx)
+	GateErr bool `json:"gate_err,omitempty"` // the first ctx.Err() call that reports the cancellation parks at the scheduler (a schedule point between an attempt's decision to give up and its clean-up)
+	Cause   bool `json:"cause,omitempty"`    // the context is a WithCancelCause context and is cancelled with a cause of the harness (ctx.Err() is still context.Canceled)
 }
 
 // LockerCfg is one Locker object: which provider made it, for which lock name.
@@ -112,6 +116,32 @@ func (i *Info) ClassList() []string {
 // engine
 
 const lockPath = "/locks/"
+
+var errHarnessCause = errors.New("the harness had its reasons")
+
+// errGateCtx parks its first Err() call that reports the end of the context at the scheduler.
+type errGateCtx struct {
+	context.Context
+	g    *gated.Storage
+	once atomic.Bool
+}
+
+// calledFromLockCode: the Err() call comes from the lock package itself (storage backends also poll Err(), some of
+// them with their mutex held - no schedule point there).
+func calledFromLockCode() bool {
+	var pcs [4]uintptr
+	n := runtime.Callers(3, pcs[:])
+	fr, _ := runtime.CallersFrames(pcs[:n]).Next()
+	return strings.Contains(fr.Function, "/kvs/distlock.")
+}
+
+func (c *errGateCtx) Err() error {
+	err := c.Context.Err()
+	if err != nil && calledFromLockCode() && c.once.CompareAndSwap(false, true) {
+		c.g.Park("ctxerr", "")
+	}
+	return err
+}
 
 type command struct {
 	unlock bool
@@ -363,6 +393,15 @@ func (e *eng) apply(mv move) {
 			w.cancel, w.cancelled = nil, false
 			if r.Kind != KLock {
 				ctx, cancel := context.WithCancel(context.Background())
+				if r.Cause {
+					cctx, ccancel := context.WithCancelCause(context.Background())
+					ctx, cancel = cctx, func() { ccancel(errHarnessCause) }
+					e.info.class("context_with_cause")
+				}
+				if r.GateErr && !r.Pre {
+					ctx = &errGateCtx{Context: ctx, g: e.g}
+					e.info.class("context_err_gated")
+				}
 				c.ctx, w.cancel = ctx, cancel
 				if r.Pre {
 					cancel()
@@ -411,13 +450,22 @@ func (e *eng) apply(mv move) {
 		if e.c.Mode == "C04" {
 			// the attempt must now end: let its own pending call (if any) go and look at the result
 			synctest.Wait()
-			if e.g.PendingOf(w.idx) != nil {
+			atErr := func() bool { p := e.g.PendingOf(w.idx); return p != nil && p.Op == "ctxerr" }
+			if !atErr() && e.g.PendingOf(w.idx) != nil {
 				e.g.Release(w.idx, gated.OK)
 			}
 			synctest.Wait()
-			if e.g.PendingOf(w.idx) != nil { // e.g. a Create that followed a wait which had already been satisfied
+			if !atErr() && e.g.PendingOf(w.idx) != nil { // e.g. a Create that followed a wait which had already been satisfied
 				e.g.Release(w.idx, gated.OK)
 				synctest.Wait()
+			}
+			if atErr() {
+				// the attempt has noticed the cancellation and is parked before its clean-up: later moves decide when it goes on
+				e.mu.Lock()
+				e.info.class("cancel:parked_before_cleanup")
+				e.logf("w%d parked at its ctx.Err() call", w.idx)
+				e.mu.Unlock()
+				break
 			}
 			e.mu.Lock()
 			switch {
